@@ -56,6 +56,7 @@ class Model:
         self.requests = {}     # key -> comm request (mailbox/mq)
         self.slot_req = {}     # slot name -> request key
         self.dead = set()
+        self.opwait = {}
         self.stats = dict(contended_lock=0, recursive=0, sem_blocked=0, sem_timeout=0, cv_wait=0, cv_timeout=0,
                           cv_lost_notify=0, bar_groups=0, tie=0, mbox_recv_first=0, mbox_send_first=0, trylock_fail=0)
         # index of R records for look-ahead
@@ -64,7 +65,27 @@ class Model:
             if r.t == 'R':
                 self.R[(r.aid, r.inc, r.idx)] = r
         self.recs = recs
+        # payload eventually observed on each receive slot (look-ahead for tie handling)
+        self.slot_payload = {}
+        cmap = {}
+        self.subidx = {}     # seq -> index of the scheduling sub-round the record belongs to
+        sub = 0
+        for r in recs:
+            if r.t == 'B':
+                sub += 1
+            self.subidx[r.seq] = sub
+        self.cur_sub = 0
+        for r in recs:
+            if r.t == 'C':
+                cmap[(r.aid, r.inc, r.idx)] = r
+            elif r.t == 'R' and 'payload' in r.kv and not r.kv.get('exc'):
+                c = cmap.get((r.aid, r.inc, r.idx))
+                if c is not None and c.kind in ('wait', 'wait_for', 'wait_until', 'wait_for_or_cancel', 'test') and c.args:
+                    self.slot_payload.setdefault(c.args[0], r.kv['payload'])
+                elif c is not None and c.kind in ('wait_any', 'test_any') and r.kv.get('got', '-') != '-':
+                    self.slot_payload.setdefault(r.kv['got'], r.kv['payload'])
         self.deadlock_snapshot = None
+        self.now_mode = plan.get('opts', {}).get('mode', 'native')
         self.illformed = None
 
     def v(self, cls, msg):
@@ -185,40 +206,6 @@ class Model:
         self.stats['cv_timeout'] += 1
         self.mutex_lock_async(w.mutex, w)
 
-    # ----------------------------------------------------------------------------------------- mailbox / mq
-    def comm_post(self, table, name, side, req):
-        mb = table[name]
-        mine, other = ('sends', 'recvs') if side == 's' else ('recvs', 'sends')
-        # skip dead / timed-out / cancelled counterpart requests
-        q = mb[other]
-        while q:
-            o = q[0]
-            if o.get('gone'):
-                q.pop(0)
-                continue
-            if o.get('deadline') is not None and o['deadline'] <= self.now + EPS and self.req_observed_timeout(o):
-                o['gone'] = True
-                q.pop(0)
-                continue
-            q.pop(0)
-            s, r = (req, o) if side == 's' else (o, req)
-            s['peer'] = r['key']
-            r['peer'] = s['key']
-            r['expect_payload'] = s['payload']
-            if side == 's':
-                self.stats['mbox_recv_first'] += 1
-            else:
-                self.stats['mbox_send_first'] += 1
-            return
-        mb[mine].append(req)
-
-    def req_observed_timeout(self, req):
-        # a request owned by a blocking op: look at its R; owned by a slot: look at the waits on that slot
-        r = self.R.get(req['key'])
-        if req.get('blocking'):
-            return r is not None and r.kv.get('exc') == 'Timeout'
-        return req.get('slot_timedout', False)
-
     # ----------------------------------------------------------------------------------------- driver
     def handle_call(self, r):
         """apply the kernel-side effect of the op whose C record is r (called at the end of its sub-round)"""
@@ -308,37 +295,136 @@ class Model:
                 w.grant_clock = self.now
                 w.phase = 1  # the last one
                 self.stats['bar_groups'] += 1
-        elif k in ('put', 'put_async', 'put_detach', 'mput', 'mput_async'):
-            table = self.mq if k.startswith('m') else self.mbox
-            if k in ('put_async', 'mput_async'):
-                name = a[1]
-            else:
-                name = a[0]
-            payload = '%s.%d.%d' % key
-            to = None
+        elif k in ('put', 'put_async', 'put_init', 'put_detach', 'mput', 'mput_async',
+                   'get', 'get_async', 'get_init', 'mget', 'mget_async'):
+            self.comm_request(k, a, key)
+        elif k in ('start', 'wait', 'wait_for', 'wait_until', 'wait_for_or_cancel', 'test'):
+            if a and a[0] in self.slot_req:
+                req = self.requests[self.slot_req[a[0]]]
+                if not req['posted']:
+                    self.comm_post(req)
+                if k == 'wait':
+                    self.opwait[aid] = dict(key=key, slots=[a[0]], any=False)
+        elif k in ('wait_any', 'wait_all', 'test_any'):
+            if k != 'test_any' and not any(x.startswith('timeout=') for x in a):
+                self.opwait[aid] = dict(key=key, slots=[x for x in a if '=' not in x], any=(k == 'wait_any'))
             for x in a:
-                if x.startswith('timeout='):
-                    to = float(x[8:])
-            req = dict(key=key, side='s', payload=payload, box=name, blocking=k in ('put', 'mput'),
-                       deadline=(self.now + to) if to is not None else None, peer=None)
-            self.requests[key] = req
-            self.put_keys[payload] = req
-            if k in ('put_async', 'mput_async'):
-                self.slot_req[a[0]] = key
-            self.comm_post(table, name, 's', req)
-        elif k in ('get', 'get_async', 'mget', 'mget_async'):
-            table = self.mq if k.startswith('m') else self.mbox
-            name = a[1] if k in ('get_async', 'mget_async') else a[0]
-            to = None
-            for x in a:
-                if x.startswith('timeout='):
-                    to = float(x[8:])
-            req = dict(key=key, side='r', box=name, blocking=k in ('get', 'mget'),
-                       deadline=(self.now + to) if to is not None else None, peer=None, expect_payload=None)
-            self.requests[key] = req
-            if k in ('get_async', 'mget_async'):
-                self.slot_req[a[0]] = key
-            self.comm_post(table, name, 'r', req)
+                if x in self.slot_req and not self.requests[self.slot_req[x]]['posted']:
+                    self.comm_post(self.requests[self.slot_req[x]])
+        elif k == 'cancel':
+            if a and a[0] in self.slot_req:
+                req = self.requests[self.slot_req[a[0]]]
+                if req['posted'] and req['peer'] is None:
+                    self.comm_withdraw(req)
+                req['cancelled'] = True
+        elif k == 'set_receiver':
+            if a[0] in self.mbox:
+                self.mbox[a[0]]['receiver'] = None if a[1] == '-' else a[1]
+                self.stats['set_receiver'] = self.stats.get('set_receiver', 0) + 1
+
+    # ----------------------------------------------------------------------------------------- mailbox / mq
+    def comm_request(self, k, a, key):
+        mq = k.startswith('m')
+        side = 's' if 'put' in k else 'r'
+        slot = a[0] if k.endswith(('_async', '_init')) else None
+        box = a[1] if slot else a[0]
+        to = None
+        for x in a:
+            if x.startswith('timeout='):
+                to = float(x[8:])
+        req = dict(key=key, side=side, mq=mq, box=box, blocking=slot is None and k != 'put_detach', slot=slot,
+                   deadline=(self.now + to) if to is not None and to >= 0 else None, peer=None, posted=False,
+                   gone=False, cancelled=False, payload=('%s.%d.%d' % key) if side == 's' else None,
+                   expect_payload=None, detached=(k == 'put_detach'), post_clock=None)
+        self.requests[key] = req
+        if side == 's':
+            self.put_keys[req['payload']] = req
+        if slot:
+            self.slot_req[slot] = key
+        if not k.endswith('_init'):
+            self.comm_post(req)
+
+    def comm_withdraw(self, req):
+        req['gone'] = True
+        mb = (self.mq if req['mq'] else self.mbox)[req['box']]
+        q = mb['sends' if req['side'] == 's' else 'recvs']
+        if req in q:
+            q.remove(req)
+
+    def req_failed_observed(self, req):
+        """did the operation owning this request end with an exception (or never end)?"""
+        if req['blocking']:
+            r = self.R.get(req['key'])
+            return r is None or bool(r.kv.get('exc'))
+        return False
+
+    def req_timedout_observed(self, req):
+        if not req['blocking']:
+            return False
+        r = self.R.get(req['key'])
+        return r is not None and r.kv.get('exc') == 'Timeout'
+
+    def comm_post(self, req):
+        req['posted'] = True
+        req['post_clock'] = self.now
+        mb = (self.mq if req['mq'] else self.mbox)[req['box']]
+        mine, other = ('sends', 'recvs') if req['side'] == 's' else ('recvs', 'sends')
+        q = mb[other]
+        while q:
+            o = q[0]
+            if o['gone']:
+                q.pop(0)
+                continue
+            # (a timed-out eager send to a permanent receiver keeps its place: the next get takes it and fails)
+            if o['deadline'] is not None and self.req_timedout_observed(o) and not o.get('eager'):
+                if o['deadline'] < self.now - EPS:
+                    o['gone'] = True       # withdrawn at its deadline
+                    q.pop(0)
+                    continue
+                rs = self.R.get(o['key'])
+                if o['deadline'] <= self.now + EPS and rs is not None and self.cur_sub >= self.subidx.get(rs.seq, 0):
+                    o['gone'] = True       # its cancellation was handled in an earlier sub-round of this date
+                    q.pop(0)
+                    continue
+                if o['deadline'] <= self.now + EPS:
+                    # tie: o timed out at this very date; whether its cancellation is handled before or after our
+                    # request is a matter of run order (timeout and cancel are two steps). Follow the run.
+                    self.stats['tie'] += 1
+                    if req['side'] == 'r':
+                        r_ = self.R.get(req['key'])
+                        got = None
+                        if req['blocking'] and r_ is not None and not r_.kv.get('exc'):
+                            got = r_.kv.get('payload')
+                        elif not req['blocking']:
+                            got = self.slot_payload.get(req['slot'])
+                        if got == o['payload']:
+                            o['tie_consumed'] = True   # the dying put was still taken: legal at a tie
+                        else:
+                            o['gone'] = True
+                            q.pop(0)
+                            if self.req_failed_observed(req):
+                                req['gone'] = True
+                                return
+                            continue
+                    else:
+                        # a put meeting a get that is timing out right now: it may or may not be swallowed by it
+                        mb['uncertain'] = True
+                        o['gone'] = True
+                        q.pop(0)
+                        if self.req_failed_observed(req):
+                            req['gone'] = True
+                            return
+                        continue
+            q.pop(0)
+            snd, rcv = (req, o) if req['side'] == 's' else (o, req)
+            snd['peer'] = rcv['key']
+            rcv['peer'] = snd['key']
+            rcv['expect_payload'] = snd['payload']
+            self.stats['mbox_recv_first' if req['side'] == 's' else 'mbox_send_first'] += 1
+            return
+        if req['side'] == 's' and mb.get('receiver'):
+            req['eager'] = True   # sent at once towards the permanent receiver; stays in its list even if cancelled
+        mb[mine].append(req)
 
     def handle_return(self, r):
         k = r.kind
@@ -442,13 +528,15 @@ class Model:
             if not w.granted:
                 self.v('barrier_early', 'barrier %s: wait by %s returned at seq %d before its group was complete '
                        '(%d of %d waiting)' % (w.obj, aid, r.seq, len(self.bar[w.obj]['q']), self.bar[w.obj]['n']))
-            elif (r.kv.get('ret') == '1') != (w.phase == 1):
+            elif (r.kv.get('ret') == '1') != (w.phase == 1) and self.now_mode != 'walk':
                 self.v('barrier_ret', 'barrier %s: return value of %s is %s, model says %d' %
                        (w.obj, aid, r.kv.get('ret'), w.phase))
             self.pending.pop(aid, None)
         elif k in ('get', 'mget'):
             self.check_delivery(key, r)
         elif k in ('wait', 'wait_for', 'wait_until', 'wait_for_or_cancel', 'test'):
+            if a and a[0] in self.slot_req and r.kv.get('state') == 'FINISHED' and not r.kv.get('exc'):
+                self.requests[self.slot_req[a[0]]]['completed'] = True
             if a and a[0] in self.slot_req and 'payload' in r.kv:
                 self.check_delivery(self.slot_req[a[0]], r)
         elif k in ('wait_any', 'test_any'):
@@ -465,18 +553,39 @@ class Model:
         p = r.kv.get('payload')
         if p is None:
             return
+        if p == 'null' and r.kind in ('test', 'test_any'):
+            req['null_by_test'] = True
+            return  # test() answers true on a failed/cancelled comm without raising: not a successful get
+        if p == 'null' and req.get('null_by_test'):
+            return  # ... and a later wait on that activity, already marked finished by test(), returns at once
         if p in ('null', 'corrupt'):
             self.v('payload_corrupt', 'receive %s got payload %s (seq %d)' % (reqkey, p, r.seq))
             return
+        if req.get('seen_payload') is not None:
+            if req['seen_payload'] != p:
+                self.v('payload_changed', 'receive %s first showed payload %s, later %s' % (reqkey, req['seen_payload'], p))
+            return  # a second wait/test on the same completed receive is not a second delivery
+        req['seen_payload'] = p
         self.delivered[p] = self.delivered.get(p, 0) + 1
         if self.delivered[p] > 1:
             self.v('dup', 'payload %s delivered %d times (seq %d)' % (p, self.delivered[p], r.seq))
         if p not in self.put_keys:
             self.v('invented', 'payload %s was never put (seq %d)' % (p, r.seq))
             return
-        if 'size' in r.kv:
-            preq = self.put_keys[p]
-        if req.get('expect_payload') != p:
+        preq = self.put_keys[p]
+        pr = self.R.get(preq['key'])
+        if preq['blocking'] and pr is not None and pr.kv.get('exc') and pr.seq < r.seq and \
+                not preq.get('tie_consumed') and req['post_clock'] is not None and pr.clock < req['post_clock'] - EPS:
+            self.v('ghost', 'receive %s got payload %s whose put had already reported %s to its sender (seq %d)' %
+                   ('%s.%d.%d' % reqkey, p, pr.kv.get('exc'), r.seq))
+            return
+        if 'size' in r.kv and preq['key'] in self.callrec:
+            pa = self.callrec[preq['key']].args
+            want = float(pa[2] if preq['slot'] else pa[1])
+            if float.fromhex(r.kv['size']) != want:
+                self.v('payload_size', 'payload %s arrived with size %s, sent with %r' % (p, r.kv['size'], want))
+        box = (self.mq if req['mq'] else self.mbox)[req['box']]
+        if req.get('expect_payload') != p and not box.get('uncertain'):
             self.v('order', 'receive %s on %s got payload %s, FIFO matching gives %s (seq %d)' %
                    ('%s.%d.%d' % reqkey, req['box'], p, req.get('expect_payload'), r.seq))
 
@@ -502,8 +611,8 @@ class Model:
             for name, mb in table.items():
                 for side in ('sends', 'recvs'):
                     for req in list(mb[side]):
-                        if req.get('deadline') is not None and req['deadline'] <= self.now + EPS and \
-                                self.req_observed_timeout(req):
+                        if req['deadline'] is not None and req['deadline'] < self.now - EPS and \
+                                self.req_timedout_observed(req) and not req.get('eager'):
                             req['gone'] = True
                             mb[side].remove(req)
 
@@ -513,6 +622,7 @@ class Model:
 
         def flush():
             for c in pendingC:
+                self.cur_sub = self.subidx.get(c.seq, 0)
                 self.handle_call(c)
             del pendingC[:]
 
@@ -527,6 +637,8 @@ class Model:
                 if r.kind == 'time_advance':
                     flush()
                     self.expiries()
+                elif r.kind == 'actor_end':
+                    self.actor_requests_cancel(r.aid)  # a terminating actor cancels its pending activities at once
                 elif r.kind == 'actor_term':
                     self.actor_dead(r.aid)
                 elif r.kind == 'deadlock':
@@ -543,8 +655,17 @@ class Model:
         self.final_checks()
         return self.viol
 
+    def actor_requests_cancel(self, aid):
+        for key, req in self.requests.items():
+            if key[0] == aid and req['posted'] and req['peer'] is None and not req['gone'] and not req['detached']:
+                r = self.R.get(key)
+                if req.get('completed') or req.get('eager') or (req['blocking'] and r is not None and not r.kv.get('exc')):
+                    continue  # a blocking put that returned normally (eager send to a permanent receiver) is complete
+                self.comm_withdraw(req)
+
     def actor_dead(self, aid):
         self.dead.add(aid)
+        self.actor_requests_cancel(aid)
         self.pending.pop(aid, None)
         for m in self.mutex.values():
             m['q'] = [w for w in m['q'] if w.aid != aid]
@@ -563,6 +684,22 @@ class Model:
             if not done and not w.timedout and w.deadline < self.now - EPS:
                 self.v(w.kind + '_timeout_missed', '%s by %s called at %r with deadline %r never returned although the '
                        'simulation reached %r' % (w.kind, aid, w.call_clock, w.deadline, self.now))
+        for key, req in self.requests.items():
+            r = self.R.get(key)
+            if req['blocking'] and r is not None and not r.kv.get('exc') and r.kv.get('skip') != '1':
+                box = (self.mq if req['mq'] else self.mbox)[req['box']]
+                if req['peer'] is None and not box.get('uncertain') and not box.get('receiver'):
+                    self.v('unmatched_return', 'blocking %s on %s by %s returned normally (seq %d) although no matching '
+                           '%s exists in the reference semantics' % ('put' if req['side'] == 's' else 'get', req['box'],
+                                                                     key[0], r.seq, 'get' if req['side'] == 's' else 'put'))
+                elif req['side'] == 's' and req['peer'] in self.requests:
+                    peer = self.requests[req['peer']]
+                    pr = self.R.get(peer['key'])
+                    box = (self.mq if req['mq'] else self.mbox)[req['box']]
+                    if peer['blocking'] and pr is not None and pr.kv.get('exc') and not box.get('uncertain') and \
+                            not box.get('receiver'):
+                        self.v('lost', 'put %s returned normally but its matching get reported %s: the payload is lost' %
+                               (req['payload'], pr.kv.get('exc')))
         return self.viol
 
     def blocked_set(self):
@@ -577,4 +714,18 @@ class Model:
                 done = w.granted
             if not done and not w.timedout:
                 out[aid] = w.key
+        # blocking put/get (no timeout) whose request has no peer, and plain waits on unmatched slot requests
+        for key, req in self.requests.items():
+            if req['blocking'] and req['posted'] and req['peer'] is None and not req['gone'] and \
+                    req['deadline'] is None and not req.get('eager') and key not in self.R and key[0] not in self.dead:
+                out[key[0]] = key
+        for aid, ow in self.opwait.items():
+            if aid in self.dead or ow['key'] in self.R:
+                continue
+            reqs = [self.requests[self.slot_req[x]] for x in ow['slots'] if x in self.slot_req]
+            if not reqs or len(reqs) != len(ow['slots']):
+                continue
+            un = [q for q in reqs if q['peer'] is None and not q['gone'] and not q.get('eager') and not q.get('cancelled')]
+            if (ow['any'] and len(un) == len(reqs)) or (not ow['any'] and un):
+                out[aid] = ow['key']
         return out
